@@ -14,7 +14,7 @@ Rec == ndJsonDeserialize(IOEnv.TRACE)
 VARIABLES l, cfg, ins, since, live, allsmall
 vars == <<l, cfg, ins, since, live, allsmall>>
 
-NoCfg == [teff |-> 0, realloc |-> FALSE, maxc |-> 1, stable |-> TRUE]
+NoCfg == [teff |-> 0, realloc |-> FALSE, maxc |-> 1, stable |-> TRUE, mf |-> "concat"]
 TraceInit == l = 1 /\ cfg = NoCfg /\ ins = <<>> /\ since = 0 /\ live = 0 /\ allsmall = TRUE
 IsEvent(e) == l <= Len(Rec) /\ Rec[l].ev = e /\ l' = l + 1
 
@@ -22,7 +22,7 @@ EvReset == IsEvent("Reset") /\ cfg' = NoCfg /\ ins' = <<>> /\ since' = 0 /\ live
 EvDict == IsEvent("Dict") /\ StrictlyAscending(Rec[l].strs) /\ UNCHANGED <<cfg, ins, since, live, allsmall>>
 EvSCfg ==
     /\ IsEvent("SCfg")
-    /\ cfg' = [teff |-> Rec[l].teff, realloc |-> Rec[l].realloc, maxc |-> Rec[l].maxc, stable |-> Rec[l].stable]
+    /\ cfg' = [teff |-> Rec[l].teff, realloc |-> Rec[l].realloc, maxc |-> Rec[l].maxc, stable |-> Rec[l].stable, mf |-> Rec[l].mf]
     /\ ins' = <<>> /\ since' = 0 /\ live' = 0 /\ allsmall' = TRUE
 
 \* Sorter::insert returned
@@ -58,7 +58,7 @@ EvSOut ==
     /\ IsEvent("SOut")
     /\ LET e == Rec[l] IN
        /\ e.res = "ok"
-       /\ CheckOutput => OutputOk(ins, e.entries, cfg.stable)
+       /\ CheckOutput => OutputOk(ins, e.entries, cfg.stable, cfg.mf)
     /\ UNCHANGED <<cfg, ins, since, live, allsmall>>
 
 TraceNext == EvReset \/ EvDict \/ EvSCfg \/ EvSIns \/ EvCreate \/ EvDrop \/ EvSOut
